@@ -157,6 +157,8 @@ PLANS["C01"] = {
         T("extremes", "extremes", (12, 300), ["InvC01"]),
         # strings of 100 .. 70 000 bytes that are prefixes of one another, in an indexed field
         T("longstr", "longstr", (8, 100), ["InvC01"], chunk=4, heap="6g", seed_off=27),
+        # two values held by 33 .. 70 documents each: bounds on exactly those values, both directions, windows inside a run
+        T("runs", "runs", (6, 80), ["InvC01", "InvC08"], chunk=3, heap="6g", seed_off=37),
         EDG("edges", ["InvC01"], ops=["Derived"]),
         # every conjunction / disjunction of two bounds on the indexed field, in both orders, on content-rich states
         EDG("edges-bounds", ["InvC01"], ops=["Derived"], rich_states=40, states=(3, 30), reads=(0, 0),
@@ -347,6 +349,7 @@ PLANS["C15"] = {
         T("bulk3", "bulk", (12, 120), ["InvBackendsAgree", "InvAuditAgree"], backends="bolt,badger", chunk=3, heap="6g"),
         T("sort3", "sort", (20, 500), ["InvBackendsAgree", "InvValue"], backends="bolt,badger,badgermem", chunk=8),
         # documents from a few bytes to 70 KB on the three backends at once
+        T("runs3", "runs", (4, 60), ["InvBackendsAgree", "InvAuditAgree", "InvValue"], backends="bolt,badger,badgermem", chunk=2, heap="6g", seed_off=39),
         T("pads3", "pads", (10, 200), ["InvBackendsAgree", "InvAuditAgree", "InvOutcome"], backends="bolt,badger,badgermem", chunk=5, heap="6g"),
         # _expiresAt a moment ahead of the wall clock, which then passes it: nothing may expire on any backend
         T("expiry3", "expiry", (3, 12), ["InvBackendsAgree", "InvAuditAgree", "InvOutcome", "InvValue", "InvAudit"],
